@@ -66,6 +66,10 @@ pub struct Model {
     pub allow_redecl: bool,
     pub probes: BTreeMap<&'static str, u64>,
     pub depth: usize,
+    /// input seam: the byte script, how far it has been consumed, the pending one-shot read error
+    pub input: Vec<u8>,
+    pub in_pos: usize,
+    pub in_err_at: Option<usize>,
 }
 
 pub const BUILTINS: &[&str] = &[
@@ -78,6 +82,7 @@ pub const BUILTINS: &[&str] = &[
     "all", "count", "then", ".", "apply", "const", "even", "odd", "abs", "group_all", "contains",
     "permutations", "combinations", "subsequences", "^^", "iterate", "lazy_map", "lazy_filter", "**",
     ".*", "*.", "..", "=>", "join", "<=>", "only", "index", "find", "locate", "uncons", "unsnoc",
+    "input", "read", "read_bytes", "interact", "interact_lines",
 ];
 
 pub const TYPES: &[(&str, fn() -> Ty)] = &[
@@ -132,6 +137,9 @@ impl Model {
             allow_redecl,
             probes: BTreeMap::new(),
             depth: 0,
+            input: Vec::new(),
+            in_pos: 0,
+            in_err_at: None,
         }
     }
 
